@@ -204,7 +204,7 @@ class SArr(PyObj):
     def binop_(self, ctx, op, other, swapped):
         import operator
         ops = {'add': operator.add, 'sub': operator.sub, 'mul': operator.mul, 'truediv': operator.truediv,
-               'floordiv': operator.floordiv, 'mod': operator.mod,
+               'floordiv': operator.floordiv, 'mod': operator.mod, 'pow': operator.pow,
                'Lt': operator.lt, 'LtE': operator.le, 'Gt': operator.gt, 'GtE': operator.ge,
                'Eq': operator.eq, 'NotEq': operator.ne}
         inplace = op.startswith('i') and op[1:] in ops
